@@ -452,6 +452,7 @@ type conn struct {
 	client *peer
 	server *peer
 	ctr    byte
+	old    bool   // made through a proxy object that a populate has since replaced
 	labUp  string // counter labels of its two links: the proxy's configuration when it was accepted
 	labDn  string
 }
@@ -771,6 +772,7 @@ func (e *Engine) Run(ops []string, res *report.Result) *report.Failure {
 		res.Ops++
 		line := op
 		connectRes := "-"
+		replacedAddr := ""
 		var exec func()
 		switch f[0] {
 		case "upstream":
@@ -822,6 +824,51 @@ func (e *Engine) Run(ops []string, res *report.Result) *report.Failure {
 						break
 					}
 				}
+			}
+		case "populate":
+			// populate <p> <u> <0|1> <same|new>: one entry; listen = the proxy's current address or a fresh one
+			if _, ok := w.upAddr[f[2]]; !ok {
+				res.Count("skipped:no-upstream")
+				continue
+			}
+			oldAddr := w.proxies[f[1]]
+			existed := false
+			for _, n := range w.porder {
+				if n == f[1] {
+					existed = true
+				}
+			}
+			if !existed {
+				oldAddr = ""
+			}
+			addr := oldAddr
+			if !existed || f[4] == "new" {
+				addr = freeAddr()
+			}
+			line = fmt.Sprintf("populate %s %s %s %s", f[1], addr, f[2], f[3])
+			replacedAddr = oldAddr
+			exec = func() {
+				en := "true"
+				if f[3] == "0" {
+					en = "false"
+				}
+				if p := w.proxy(f[1]); p != nil {
+					p.Lock()
+					differs := p.Listen != addr || p.Upstream != w.upAddr[f[2]]
+					p.Unlock()
+					if differs {
+						for _, cn := range w.conns {
+							if cn.proxy == f[1] {
+								cn.old = true
+							}
+						}
+					}
+				}
+				w.api("POST", "/populate", fmt.Sprintf(`[{"name":%q,"listen":%q,"upstream":%q,"enabled":%s}]`, f[1], addr, w.upAddr[f[2]], en))
+				if !existed {
+					w.porder = append(w.porder, f[1])
+				}
+				w.proxies[f[1]] = addr
 			}
 		case "setupstream":
 			if _, ok := w.upAddr[f[2]]; !ok {
@@ -1149,6 +1196,15 @@ func (e *Engine) Run(ops []string, res *report.Result) *report.Failure {
 				break
 			}
 		}
+		if wantsProp("C03") && f[0] == "populate" && replacedAddr != "" {
+			// a replaced proxy is really down: unless the replacement listens on the same address,
+			// the old address refuses; the connections made through the old proxy have ended
+			// (replaced = the entry differs in listen address or upstream from what the proxy had)
+			if of := w.replacedOracle(i, fail, f[1], replacedAddr, f[3] == "1"); of != nil {
+				result = of
+				break
+			}
+		}
 		if wantsProp("C20") {
 			if of := w.labelOracle(i, fail, got); of != nil {
 				result = of
@@ -1255,6 +1311,76 @@ func (w *world) stopLeakOracle(i int, fail func(int, string, string, string, str
 		}
 		time.Sleep(5 * time.Millisecond)
 	}
+}
+
+// replacedOracle (C03): after a populate that replaced proxy pname (different upstream or
+// listen address): every connection made through the old proxy has ended at both peers, and
+// the old address refuses unless the replacement is enabled on that very address.
+func (w *world) replacedOracle(i int, fail func(int, string, string, string, string, string, string) *report.Failure, pname, oldAddr string, newEnabled bool) *report.Failure {
+	p := w.proxy(pname)
+	if p == nil {
+		return nil
+	}
+	p.Lock()
+	newListen, newUp := p.Listen, p.Upstream
+	p.Unlock()
+	_ = newUp
+	// was it replaced at all? the harness knows the upstream the old connections went to:
+	// ask the connections (a proxy that was left alone keeps them open, which is fine)
+	replaced := false
+	for _, n := range w.corder {
+		c := w.conns[n]
+		if c.proxy == pname && c.labUp != "" && !strings.HasSuffix(c.labUp, ","+w.symOf(newUp)) {
+			replaced = true
+		}
+	}
+	if newListen != oldAddr {
+		replaced = true
+	}
+	if !replaced {
+		return nil
+	}
+	if !(newEnabled && newListen == oldAddr) {
+		if c, err := net.DialTimeout("tcp", oldAddr, 300*time.Millisecond); err == nil {
+			c.Close()
+			return fail(i, "oracle", "C03", "refused", "accepted", "the listen address of a replaced proxy still accepts connections", "e6:C03:replaced-still-listening")
+		}
+	}
+	deadline := time.Now().Add(time.Second)
+	for {
+		open := ""
+		for _, n := range w.corder {
+			c := w.conns[n]
+			if c.proxy != pname || !c.old {
+				continue
+			}
+			c.client.mu.Lock()
+			ce := c.client.ended
+			c.client.mu.Unlock()
+			c.server.mu.Lock()
+			se := c.server.ended
+			c.server.mu.Unlock()
+			if !ce || !se {
+				open = n
+			}
+		}
+		if open == "" {
+			return nil
+		}
+		if time.Now().After(deadline) {
+			return fail(i, "oracle", "C03", "terminated", "open", "connection "+open+" made through a proxy that was then replaced is still open at a peer", "e6:C03:replaced-conn-open")
+		}
+		time.Sleep(5 * time.Millisecond)
+	}
+}
+
+func (w *world) symOf(addr string) string {
+	for sym, a := range w.upAddr {
+		if a == addr {
+			return sym
+		}
+	}
+	return addr
 }
 
 // downOracle (C03): after the call returned, the old address refuses and both peers of every
